@@ -582,8 +582,8 @@ def compare(case, x, out, st=None):
 def cases(ctx):
     yield from corpus()
     yield from gen_errors(ctx)
-    yield from gen_dyadic(ctx, ctx.scale(2200, 8000))
-    yield from gen_general(ctx, ctx.scale(1300, 5000))
+    yield from gen_dyadic(ctx, ctx.scale(1800, 8000))
+    yield from gen_general(ctx, ctx.scale(1000, 5000))
 
 
 def correspond(ctx):
